@@ -94,7 +94,8 @@ def centroid_1dg(data, error=None, mask=None):
         data.mask |= error.mask
         error.mask = data.mask
 
-        xy_error = [np.sqrt(np.ma.sum(error**2, axis=i)) for i in (0, 1)]
+        error2 = error.astype(float)**2
+        xy_error = [np.sqrt(np.ma.sum(error2, axis=i)) for i in (0, 1)]
         xy_weights = [(1.0 / xy_error[i].clip(min=1.0e-30)) for i in (0, 1)]
     else:
         xy_weights = [np.ones(data.shape[i]) for i in (1, 0)]
